@@ -26,6 +26,7 @@ func runC19(c *an.Ctx) {
 	r19c(c)
 	r19d(c)
 	r19e(c)
+	r19f(c)
 }
 
 const evPkg = "common/event"
@@ -513,4 +514,58 @@ func r19e(c *an.Ctx) {
 	c.Subject()
 	c.Ob("payload-kinds-covered", fd.Pos(), len(missing) == 0 && len(implementers) >= 9, "every payload kind of protos.Event must be produced by a case of the conversion (%d kinds; not produced: %v)", len(implementers), missing)
 	_ = fmt.Sprint
+}
+
+// R19f: one writer per topic. The registry decides "no writer yet" and registers the new one in the same exclusive
+// critical section; with the test made under another (or no) hold of the lock two first users of a topic each
+// create a writer, the second registration replaces the first, and the replaced writer - which still accepts
+// events - is never closed by ClearEventWriters: shutdown completes without its events having been handed over.
+func r19f(c *an.Ctx) {
+	c.Rule("R19f", "event writer registry: lookup miss and registration of a new writer happen under one exclusive hold of the registry lock", 1)
+	fn := c.MustFn("core/the", "createOrGetWriter")
+	if fn == nil {
+		return
+	}
+	isRegistry := func(v ssa.Value) bool {
+		u, ok := v.(*ssa.UnOp)
+		if !ok || u.Op != token.MUL {
+			return false
+		}
+		g, isG := u.X.(*ssa.Global)
+		return isG && an.IsMapType(g.Type().Underlying().(*types.Pointer).Elem())
+	}
+	var lookups []ssa.Instruction
+	an.Instrs(fn, func(in ssa.Instruction) {
+		if lk, ok := in.(*ssa.Lookup); ok && isRegistry(lk.X) {
+			lookups = append(lookups, lk)
+		}
+	})
+	n := 0
+	an.Instrs(fn, func(in ssa.Instruction) {
+		mu, ok := in.(*ssa.MapUpdate)
+		if !ok || !isRegistry(mu.Map) {
+			return
+		}
+		c.Subject()
+		var held *ssa.Call
+		for _, h := range an.HeldAt(mu) {
+			if h.Mode == "x" {
+				held, _ = h.At.(*ssa.Call)
+			}
+		}
+		tested := false
+		if held != nil {
+			for _, lk := range lookups {
+				if an.Dominates(held, lk) && an.Dominates(lk, mu) {
+					tested = true
+				}
+			}
+		}
+		c.Ob(fmt.Sprintf("core/the.createOrGetWriter|register#%d|miss-tested-in-same-section", n), mu.Pos(), held != nil && tested,
+			"a writer is registered here (exclusive lock held: %v) without the registry having been looked up since that lock was taken (%v): two concurrent first users of a topic both register a writer, the first one is replaced and never closed at shutdown, and one producer's events are split over two independent pipelines", held != nil, tested)
+		n++
+	})
+	if n == 0 {
+		c.Lost("registration into the writers map in core/the.createOrGetWriter")
+	}
 }
